@@ -14,7 +14,7 @@ func init() {
 	register("C18", core.PropertyMeta{
 		Explanation: "Decides structural clauses of C18; that a restored shard answers every read exactly as the source did is a statement about run-time values and is NOT decided. " +
 			"D1 a replica is advertised only after a complete copy: the copy-shard handler's work closure returns nil only after backupRemoteShard, CreateShard and RestoreShard returned nil; the success response is sent only when the closure returned nil; Client.CopyShard returns the response's Err; the meta handler updates the owner list (store.copyShard) only after rpcClient.CopyShard returned nil; " +
-			"D2 backups contain the cache: Engine.CreateSnapshot goes on to link the files only if the forced WriteSnapshot succeeded, or if it failed with ErrSnapshotInProgress and the caller allowed skipping the cache; " +
+			"D2 backups contain the cache: Engine.CreateSnapshot goes on to link the files only if the forced WriteSnapshot succeeded, or if it failed with ErrSnapshotInProgress and the caller allowed skipping the cache; only Engine.Backup may call it with skipCacheOk not constantly false (call-site table); " +
 			"D3 time-bounded export keeps every overlapping block and file: the block test of filterFileToBackup equals 'block range overlaps [start,end]' on every ordering of its operands, and in timeStampFilterTarFile the union of the 'filter this file' and 'file entirely inside' tests equals 'file range overlaps [start,end]'; " +
 			"D4 restore installs only complete uploads: Engine.overlay hands files to FileStore.Replace only on paths where the archive was read to io.EOF, and never drops an error of readFileFromBackup; the partial last key batch is flushed to the index (same rule as C14 D2); " +
 			"D5 the source is unchanged: the only thing Backup/Export remove is the temporary snapshot directory returned by CreateSnapshot; " +
@@ -163,6 +163,32 @@ func runC18(c *core.Ctx) {
 		})
 		c.Need(complete, "exploration bound CreateSnapshot")
 		c.Check("backup-contains-cache", f.Name+"/link-after-flush", f.PosStr(), bad == "", bad)
+		// who may allow skipping the cache: only the incremental backup (Engine.Backup); the time-bounded export and
+		// everything else must insist on the flush
+		n := 0
+		p := c.P
+		for _, g := range p.AllFuncs() {
+			if g.Body == nil {
+				continue
+			}
+			ginfo := g.Info()
+			for _, e := range g.Graph().Events {
+				if e.Kind != core.EvCall && e.Kind != core.EvDefer && e.Kind != core.EvGo {
+					continue
+				}
+				fn, ok := e.Callee.(*types.Func)
+				if !ok || core.FuncName(fn) != tsm1+".(*Engine).CreateSnapshot" || len(e.Call.Args) != 1 {
+					continue
+				}
+				n++
+				tv := ginfo.Types[e.Call.Args[0]]
+				isFalse := tv.Value != nil && tv.Value.String() == "false"
+				allowed := isFalse || g.Root().Name == tsm1+".(*Engine).Backup"
+				c.Check("who-may-skip-the-cache", fmt.Sprintf("%s/CreateSnapshot(%s)", g.Name, core.ExprStr(e.Call.Args[0])), p.Pos(e.Pos()), allowed,
+					"CreateSnapshot is called with skipCacheOk not constantly false outside Engine.Backup: this caller's copy may silently lack the points still in the cache when a snapshot is in flight")
+			}
+		}
+		c.Floor("call sites of Engine.CreateSnapshot", n, 2)
 	})
 
 	c.Clause("D3", func() {
@@ -170,6 +196,21 @@ func runC18(c *core.Ctx) {
 		// block test
 		f := c.Fn(tsm1 + ".(*Engine).filterFileToBackup")
 		var blockCond ast.Expr
+		rangeA, rangeB := resultIdents(f, "Read", 1, 2)
+		mentionsRange := func(fn *core.FuncInfo, x ast.Expr, ids ...*ast.Ident) bool {
+			found := false
+			ast.Inspect(x, func(nd ast.Node) bool {
+				if id, ok := nd.(*ast.Ident); ok {
+					for _, want := range ids {
+						if want != nil && fn.Info().ObjectOf(id) == fn.Info().ObjectOf(want) {
+							found = true
+						}
+					}
+				}
+				return !found
+			})
+			return found
+		}
 		for _, e := range f.Graph().Events {
 			if e.Kind != core.EvCall || !selCall("WriteBlock")(e.Call) {
 				continue
@@ -178,7 +219,7 @@ func runC18(c *core.Ctx) {
 			ast.Inspect(f.Body, func(nd ast.Node) bool {
 				if ifs, ok := nd.(*ast.IfStmt); ok && ifs.Body.Pos() <= e.Pos() && e.Pos() < ifs.Body.End() && ifs.Init == nil {
 					if blockCond == nil || ifs.Cond.Pos() > blockCond.Pos() {
-						if strings.Contains(core.ExprStr(ifs.Cond), "Time") {
+						if mentionsRange(f, ifs.Cond, rangeA, rangeB) || inlinedMentions(f, ifs.Cond, rangeA, rangeB) {
 							blockCond = ifs.Cond
 						}
 					}
@@ -189,10 +230,14 @@ func runC18(c *core.Ctx) {
 		c.Need(blockCond != nil, "filterFileToBackup: condition guarding WriteBlock")
 		impl, err := pc.CompileIn(f, blockCond)
 		c.Need(err == nil, fmt.Sprintf("filterFileToBackup: block test is a comparison predicate (%v)", err))
-		mn, e1 := pc.TermIn(f, identNamed(f, "minTime"))
-		mx, e2 := pc.TermIn(f, identNamed(f, "maxTime"))
-		st, e3 := pc.TermIn(f, identNamed(f, "start"))
-		en, e4 := pc.TermIn(f, identNamed(f, "end"))
+		// the block's range: 2nd and 3rd result of the block iterator's Read; the window: the two int64 parameters
+		bmin, bmax := resultIdents(f, "Read", 1, 2)
+		ints := int64Params(f)
+		c.Need(bmin != nil && bmax != nil && len(ints) == 2, "filterFileToBackup: block range from bi.Read() and two int64 window parameters")
+		mn, e1 := pc.TermIn(f, bmin)
+		mx, e2 := pc.TermIn(f, bmax)
+		st, e3 := pc.TermIn(f, ints[0])
+		en, e4 := pc.TermIn(f, ints[1])
 		c.Need(e1 == nil && e2 == nil && e3 == nil && e4 == nil, "filterFileToBackup: terms minTime, maxTime, start, end")
 		assume := core.And(core.Le(mn, mx), core.Le(st, en))
 		spec := core.And(core.Le(mn, en), core.Le(st, mx))
@@ -211,6 +256,7 @@ func runC18(c *core.Ctx) {
 		c.Need(len(g.Lits) >= 1, "timeStampFilterTarFile: filter closure")
 		lit := g.Lits[0]
 		var filterCond, insideCond ast.Expr
+		fileA, fileB := resultIdents(lit, "TimeRange", 0, 1)
 		ast.Inspect(lit.Body, func(nd ast.Node) bool {
 			ifs, ok := nd.(*ast.IfStmt)
 			if !ok || ifs.Init != nil {
@@ -228,7 +274,7 @@ func runC18(c *core.Ctx) {
 			switch {
 			case strings.Contains(calls, "filterFileToBackup"):
 				filterCond = ifs.Cond
-			case strings.Contains(calls, "StreamFile") && strings.Contains(core.ExprStr(ifs.Cond), "min"):
+			case strings.Contains(calls, "StreamFile") && (mentionsRange(lit, ifs.Cond, fileA, fileB) || inlinedMentions(lit, ifs.Cond, fileA, fileB)):
 				insideCond = ifs.Cond
 			}
 			return true
@@ -238,10 +284,13 @@ func runC18(c *core.Ctx) {
 		fi, err1 := pc2.CompileIn(lit, filterCond)
 		ii, err2 := pc2.CompileIn(lit, insideCond)
 		c.Need(err1 == nil && err2 == nil, fmt.Sprintf("timeStampFilterTarFile: file tests are comparison predicates (%v %v)", err1, err2))
-		fmn, e1 := pc2.TermIn(lit, identNamed(lit, "min"))
-		fmx, e2 := pc2.TermIn(lit, identNamed(lit, "max"))
-		fst, e3 := pc2.TermIn(lit, identNamed(lit, "stun"))
-		fen, e4 := pc2.TermIn(lit, identNamed(lit, "eun"))
+		// the file's range: the two results of TimeRange(); the window: UnixNano() of the two time parameters of the enclosing function
+		fminI, fmaxI := resultIdents(lit, "TimeRange", 0, 1)
+		c.Need(fminI != nil && fmaxI != nil, "timeStampFilterTarFile: min, max := r.TimeRange()")
+		fmn, e1 := pc2.TermIn(lit, fminI)
+		fmx, e2 := pc2.TermIn(lit, fmaxI)
+		fst, fen := "$0.UnixNano()", "$1.UnixNano()"
+		e3, e4 = nil, nil
 		c.Need(e1 == nil && e2 == nil && e3 == nil && e4 == nil, "timeStampFilterTarFile: terms min, max, stun, eun")
 		fassume := core.And(core.Le(fmn, fmx), core.Le(fst, fen))
 		fspec := core.And(core.Le(fmn, fen), core.Le(fst, fmx))
@@ -568,6 +617,85 @@ func decompose(x ast.Expr, val bool, out *[]atomB) {
 		}
 	}
 	*out = append(*out, atomB{x, val})
+}
+
+// resultIdents returns the identifiers that receive results i and j of the (first) call of a method named
+// method in f (x, y, ... := recv.method()).
+func resultIdents(f *core.FuncInfo, method string, i, j int) (a, b *ast.Ident) {
+	ast.Inspect(f.Body, func(nd ast.Node) bool {
+		as, ok := nd.(*ast.AssignStmt)
+		if !ok || len(as.Rhs) != 1 || a != nil {
+			return true
+		}
+		ce, ok := as.Rhs[0].(*ast.CallExpr)
+		if !ok {
+			return true
+		}
+		se, ok := ce.Fun.(*ast.SelectorExpr)
+		if !ok || se.Sel.Name != method || i >= len(as.Lhs) || j >= len(as.Lhs) {
+			return true
+		}
+		x, ok1 := as.Lhs[i].(*ast.Ident)
+		y, ok2 := as.Lhs[j].(*ast.Ident)
+		if ok1 && ok2 {
+			a, b = x, y
+		}
+		return true
+	})
+	return
+}
+
+// inlinedMentions: cond uses a boolean local whose (single) definition mentions one of ids.
+func inlinedMentions(fn *core.FuncInfo, cond ast.Expr, ids ...*ast.Ident) bool {
+	info := fn.Info()
+	found := false
+	ast.Inspect(cond, func(nd ast.Node) bool {
+		id, ok := nd.(*ast.Ident)
+		if !ok || found {
+			return !found
+		}
+		o := info.ObjectOf(id)
+		if o == nil {
+			return true
+		}
+		ast.Inspect(fn.Body, func(d ast.Node) bool {
+			as, ok := d.(*ast.AssignStmt)
+			if !ok || len(as.Lhs) != len(as.Rhs) {
+				return true
+			}
+			for i, l := range as.Lhs {
+				if lid, ok := l.(*ast.Ident); ok && info.ObjectOf(lid) == o {
+					ast.Inspect(as.Rhs[i], func(r ast.Node) bool {
+						if rid, ok := r.(*ast.Ident); ok {
+							for _, want := range ids {
+								if want != nil && info.ObjectOf(rid) == info.ObjectOf(want) {
+									found = true
+								}
+							}
+						}
+						return !found
+					})
+				}
+			}
+			return !found
+		})
+		return !found
+	})
+	return found
+}
+
+// int64Params returns the identifiers of the int64 parameters of f in order.
+func int64Params(f *core.FuncInfo) []*ast.Ident {
+	var out []*ast.Ident
+	if f.Type == nil || f.Type.Params == nil {
+		return nil
+	}
+	for _, p := range f.Type.Params.List {
+		if t := f.Info().TypeOf(p.Type); t != nil && t.String() == "int64" {
+			out = append(out, p.Names...)
+		}
+	}
+	return out
 }
 
 // identNamed returns the defining identifier of the parameter or local variable called name (searching enclosing functions' parameters too).
